@@ -89,28 +89,38 @@ def restoreSrc (ts : List TensorD) (ifm : Option Nat) (inp : Option Nat) : Optio
       | none => inp
     else inp
 
+def lookupOpE (name : String) : Except String OpInfo :=
+  match lookupOp name with
+  | some i => pure i
+  | none => throw "key"
+
+/-- `self.align_nng_inputs_to_tflite(op)` (not for Const / Placeholder / SubgraphInput) -/
+def alignedInputs (info : OpInfo) (ignored : Bool) (inputs : List (Option Nat)) : Except String (List (Option Nat)) :=
+  if ignored then pure inputs else
+  match info.inv with
+  | none => throw "key"
+  | some x => alignInputs info.nng x.2.2 inputs
+
+/-- convolution-like operators with constant weights get the original tensors behind reshaped clones back -/
+def restoredInputs (ts : List TensorD) (info : OpInfo) (inputs : List (Option Nat)) : Except String (List (Option Nat)) :=
+  if info.convLike then
+    match inputs[1]? with
+    | none => throw "index"
+    | some none => throw "attr"
+    | some (some w) =>
+      match ts[w]? with
+      | none => throw "ref"
+      | some tw =>
+        if tw.values.isSome then pure (inputs.map (restoreSrc ts (getInput inputs info.nng.ifms 0)))
+        else pure inputs
+  else pure inputs
+
 def prepOp (ts : List TensorD) (op : OpD) : Except String POp := do
-  let info ← match lookupOp op.type with
-    | some i => pure i
-    | none => throw "key"
-  let ignored := WriterTbl.opsToIgnore.contains op.type
-  let inputs1 ← if ignored then pure op.inputs else
-    match info.inv with
-    | none => throw "key"
-    | some (_, _, wt) => alignInputs info.nng wt op.inputs
-  let inputs2 ← if info.convLike then
-      match inputs1[1]? with
-      | none => throw "index"
-      | some none => throw "attr"
-      | some (some w) =>
-        match ts[w]? with
-        | none => throw "ref"
-        | some tw =>
-          if tw.values.isSome then pure (inputs1.map (restoreSrc ts (getInput inputs1 info.nng.ifms 0)))
-          else pure inputs1
-    else pure inputs1
+  let info ← lookupOpE op.type
+  let inputs1 ← alignedInputs info (WriterTbl.opsToIgnore.contains op.type) op.inputs
+  let inputs2 ← restoredInputs ts info inputs1
   pure { info := info, custom := op.customCode, version := op.version, inputs := inputs2, outputs := op.outputs,
-         intermediates := op.intermediates, payload := op.payload, ignored := ignored,
+         intermediates := op.intermediates, payload := op.payload, ignored := WriterTbl.opsToIgnore.contains op.type,
          placeholder := op.type == "Placeholder" }
 
 /-- a subgraph after `__init__` -/
